@@ -205,19 +205,29 @@ def olvl(n, plan, info=JobInfo()):
     return [here, t(n - 1, plan[1:])]
 
 
-@task(memory=1, vcpus=1)
-def otree(kids, tag=0, info=JobInfo()):
-    """A tree of jobs: every node probes its options and calls one child per step (call-time and exported options).
-    tag only keeps the calls apart (options are not part of a call's identity, the probe result depends on them)."""
+def _tree_body(kids, info):
     out = [_probe(info)]
     for step in kids:
-        t = otree
+        t = dtree if step.get("d") else otree
         if step["opts"]:
             t = t.options(**step["opts"])
         if step["exp"]:
             t = t.export_options(**step["exp"])
         out.append(t(step["kids"], step["tag"]))
     return out
+
+
+@task(memory=1, vcpus=1)
+def otree(kids, tag=0, info=JobInfo()):
+    """A tree of jobs: every node probes its options and calls one child per step (call-time and exported options).
+    tag only keeps the calls apart (options are not part of a call's identity, the probe result depends on them)."""
+    return _tree_body(kids, info)
+
+
+@task(memory=1, vcpus=1, export_options={"zone": 5})
+def dtree(kids, tag=0, info=JobInfo()):
+    """Like otree, but the task itself exports an option in its definition."""
+    return _tree_body(kids, info)
 
 
 @task(check_valid="shallow")
